@@ -144,6 +144,10 @@ func ParseContracts(pkgPath, filename string, file *ast.File, fsetLine func(ast.
 				if cur == nil {
 					return nil, fmt.Errorf("%s:%d: clause outside contract", filename, line)
 				}
+				if cur.Kind == "lemma" {
+					cur.LemmaText += " ;; " + body
+					continue
+				}
 				cl := &Clause{Kind: kw, File: filename, Line: line}
 				rest = strings.TrimSpace(rest)
 				if tm := reTags.FindStringSubmatch(rest); tm != nil {
@@ -170,15 +174,17 @@ func ParseContracts(pkgPath, filename string, file *ast.File, fsetLine func(ast.
 					return nil, fmt.Errorf("%s:%d: clause outside contract", filename, line)
 				}
 				parts := strings.Fields(rest)
-				if len(parts) < 3 || parts[1] != "invariant" {
-					return nil, fmt.Errorf("%s:%d: expected 'loop <n> invariant <expr>'", filename, line)
+				if len(parts) < 3 || (parts[1] != "invariant" && parts[1] != "step") {
+					return nil, fmt.Errorf("%s:%d: expected 'loop <n> invariant|step <expr>'", filename, line)
 				}
 				n, err := strconv.Atoi(parts[0])
 				if err != nil {
 					return nil, fmt.Errorf("%s:%d: bad loop ordinal", filename, line)
 				}
-				r := strings.TrimSpace(strings.TrimPrefix(strings.TrimSpace(strings.TrimPrefix(strings.TrimSpace(rest), parts[0])), "invariant"))
-				cl := &Clause{Kind: "invariant", Loop: n, File: filename, Line: line}
+				r := strings.TrimSpace(strings.TrimPrefix(strings.TrimSpace(strings.TrimPrefix(strings.TrimSpace(rest), parts[0])), parts[1]))
+				// "step": a relation between the loop-carried state at the header (prev(x)) and at the end of
+				// one iteration (x); proved on every back edge, never assumed.
+				cl := &Clause{Kind: parts[1], Loop: n, File: filename, Line: line}
 				if tm := reTags.FindStringSubmatch(r); tm != nil {
 					cl.Tags = splitTags(tm[1])
 					r = r[len(tm[0]):]
